@@ -3,6 +3,8 @@ package benchproc
 // C08: keys identify projected tuples; projections plus residue lose nothing.
 
 import (
+	"strings"
+
 	"golang.org/x/perf/benchfmt"
 )
 
@@ -451,4 +453,59 @@ func H08Internal() {
 			vndAssert((keys[i] == keys[j]) == (rows[i] == rows[j]), "config-keys-equal-iff-file-configurations-equal")
 		}
 	}
+}
+
+// H08Dash: a name that ends in a dash without digits has no GOMAXPROCS suffix: the dash
+// belongs to the base name or to the last sub-name value. Concrete family of name pairs that
+// differ only in that dash, projected by .name, /k and /gomaxprocs (parsed in either order)
+// plus the residue: the two results never agree on all keys, and each key returns the value
+// with its dash.
+func H08Dash() {
+	pairs := [][2]string{{"Neg-", "Neg"}, {"Dash/k=-", "Dash/k="}, {"D/k=v-", "D/k=v"}, {"E-/k=v", "E/k=v"}, {"F--4", "F-4"}, {"G/k=v--8", "G/k=v-8"}}
+	pr := pairs[vndChoice("pair", len(pairs))]
+	exprs := []string{".name", "/k", "/gomaxprocs"}
+	perm := h08Perm(3, vndChoice("parse-order", 6))
+	var pp ProjectionParser
+	projs := make([]*Projection, 3)
+	for _, pi := range perm {
+		p, err := pp.Parse(exprs[pi], nil)
+		if err != nil {
+			panic(err)
+		}
+		projs[pi] = p
+	}
+	residue := pp.Residue()
+	mk := func(name string) *benchfmt.Result {
+		return &benchfmt.Result{Name: benchfmt.Name(name), Iters: 1, Values: []benchfmt.Value{{Value: 1, Unit: "u"}}}
+	}
+	r0, r1 := mk(pr[0]), mk(pr[1])
+	vndReach("h08:dash")
+	agree := residue.Project(r0) == residue.Project(r1)
+	for _, p := range projs {
+		agree = agree && p.Project(r0) == p.Project(r1)
+	}
+	vndAssert(!agree, "projections-plus-residue-lose-nothing")
+	// reference decomposition of the first name of the pair
+	name := pr[0]
+	gmp := ""
+	if i := strings.LastIndexByte(name, '-'); i >= 0 && i+1 < len(name) {
+		digits := true
+		for _, c := range []byte(name[i+1:]) {
+			digits = digits && c >= '0' && c <= '9'
+		}
+		if digits {
+			gmp, name = name[i+1:], name[:i]
+		}
+	}
+	base, kval := name, ""
+	if i := strings.IndexByte(name, '/'); i >= 0 {
+		base, kval = name[:i], name[i+len("/k="):]
+	}
+	get := func(p *Projection, r *benchfmt.Result) string {
+		k := p.Project(r)
+		return k.Get(p.FlattenedFields()[0])
+	}
+	vndAssert(get(projs[0], r0) == base, "name-key-is-the-base-with-its-dash")
+	vndAssert(get(projs[1], r0) == kval, "sub-name-value-keeps-its-dash")
+	vndAssert(get(projs[2], r0) == gmp, "gomaxprocs-needs-digits-after-the-dash")
 }
